@@ -682,6 +682,12 @@ def run_history(sc: dict, wall_limit: float = 30.0) -> dict:
                 c.create_raw(kex2, "ns", o["name"], {"spec": {"x": 0}})
         if sc.get("peering"):
             c.create_raw(fakeapi.CLUSTER_PEERING, None, "default", {})
+        if sc.get("peering") and sc.get("peering_crd_object"):
+            # the peering CRD exists as an object: its deletion is an EVENT for the resource observer (the peering dimension is
+            # dropped from the ensemble while the operator runs: the keep-alive says its farewell to a resource that is gone)
+            pr = fakeapi.CLUSTER_PEERING
+            c.create_raw(fakeapi.CRDS, None, f"{pr.plural}.{pr.group}",
+                         {"spec": {"group": pr.group, "names": {"plural": pr.plural, "kind": pr.kind}}})
         if sc.get("crd_object"):                # the CRD of the served resource exists as an object (its deletion is an event)
             c.create_raw(fakeapi.CRDS, None, f"{kex.plural}.{kex.group}",
                          {"spec": {"group": kex.group, "names": {"plural": kex.plural, "kind": kex.kind}}})
@@ -854,6 +860,9 @@ def run_history(sc: dict, wall_limit: float = 30.0) -> dict:
                         c.create_raw(fakeapi.NAMESPACES, None, args[0], {})
                 elif kind == "peering_crd_delete":   # the peering CRD (and its objects) are deleted: no peering resource any more ...
                     c.remove_resource(fakeapi.CLUSTER_PEERING)
+                elif kind == "crd2_delete":      # the CRD of the SECOND served kind is deleted (the first kind stays served)
+                    assert kex2 is not None
+                    c.remove_resource(kex2)
                 elif kind == "peering_crd_create":   # ... and installed again, with the peering object
                     c.add_resource(fakeapi.CLUSTER_PEERING)
                     if c.get(fakeapi.CLUSTER_PEERING, None, "default") is None:
